@@ -60,6 +60,7 @@ type C struct {
 	Tier     string
 	Seed     int64
 	Replay   json.RawMessage // non-nil in replay mode
+	lastExec string
 	Deadline time.Time
 
 	mu       sync.Mutex
@@ -201,7 +202,14 @@ func (c *C) Note(k, v string) {
 
 // Exec announces an execution (crash attribution).
 func (c *C) Exec(desc string) {
+	c.lastExec = desc
 	fmt.Printf("@@X %s\n", desc)
+}
+
+// Beat repeats the last Exec line: long searches that are one "execution" for crash attribution
+// tell the driver's per-execution watchdog that they are alive.
+func (c *C) Beat() {
+	fmt.Printf("@@X %s\n", c.lastExec)
 }
 
 func (c *C) Violation(clause, signature, detail string, replay interface{}) {
